@@ -137,9 +137,31 @@ COOMatrix* COOMatrix::transpose()
     return T;
 }
 
+// Blocks of A^T: each b_rows x b_cols block (row-major) becomes its b_cols x b_rows transpose
+static void transpose_blocks(const std::vector<double*>& blocks, int nnz, int b_rows, int b_cols,
+        std::vector<double*>& T_blocks)
+{
+    T_blocks.resize(nnz);
+    for (int k = 0; k < nnz; k++)
+    {
+        T_blocks[k] = new double[b_rows * b_cols];
+        for (int row = 0; row < b_rows; row++)
+            for (int col = 0; col < b_cols; col++)
+                T_blocks[k][col * b_rows + row] = blocks[k][row * b_cols + col];
+    }
+}
+static void delete_blocks(std::vector<double*>& blocks)
+{
+    for (std::vector<double*>::iterator it = blocks.begin(); it != blocks.end(); ++it)
+        delete[] *it;
+}
+
 BCOOMatrix* BCOOMatrix::transpose()
 {
-    BCOOMatrix* T = new BCOOMatrix(b_rows, b_cols, n_rows, n_cols, idx2, idx1, block_vals);
+    std::vector<double*> T_blocks;
+    transpose_blocks(block_vals, nnz, b_rows, b_cols, T_blocks);
+    BCOOMatrix* T = new BCOOMatrix(n_cols, n_rows, b_cols, b_rows, idx2, idx1, T_blocks);
+    delete_blocks(T_blocks);
     return T;
 }
 
@@ -154,7 +176,11 @@ CSRMatrix* CSRMatrix::transpose()
 
 BSRMatrix* BSRMatrix::transpose()
 {
-    BSCMatrix* T_bsc = new BSCMatrix(b_rows, b_cols, n_rows, n_cols, idx1, idx2, block_vals);
+    // The BSR arrays of A, with every block transposed, are the BSC arrays of A^T
+    std::vector<double*> T_blocks;
+    transpose_blocks(block_vals, nnz, b_rows, b_cols, T_blocks);
+    BSCMatrix* T_bsc = new BSCMatrix(n_cols, n_rows, b_cols, b_rows, idx1, idx2, T_blocks);
+    delete_blocks(T_blocks);
     BSRMatrix* T = (BSRMatrix*) T_bsc->to_CSR();
     delete T_bsc;
     return T;
@@ -170,7 +196,11 @@ CSCMatrix* CSCMatrix::transpose()
 }
 BSCMatrix* BSCMatrix::transpose()
 {
-    BSRMatrix* T_bsr = new BSRMatrix(b_rows, b_cols, n_rows, n_cols, idx1, idx2, block_vals); 
+    // The BSC arrays of A, with every block transposed, are the BSR arrays of A^T
+    std::vector<double*> T_blocks;
+    transpose_blocks(block_vals, nnz, b_rows, b_cols, T_blocks);
+    BSRMatrix* T_bsr = new BSRMatrix(n_cols, n_rows, b_cols, b_rows, idx1, idx2, T_blocks); 
+    delete_blocks(T_blocks);
     BSCMatrix* T = (BSCMatrix*) T_bsr->to_CSC();
     delete T_bsr;
     return T;
